@@ -4,6 +4,16 @@
 From Coq Require Import ZArith NArith Bool List.
 From PcoreV Require Import Model.Base Model.FileLoader.
 Import ListNotations.
+Local Open Scope nat_scope.
+
+(* strings of the cases files: the bytes of a Go string as the base-256 digits of one number below a leading 1
+   (one numeral instead of a list of numerals: the cases files are read ten times faster) *)
+Fixpoint sd_bytes (fuel : nat) (n : N) : str :=
+  match fuel with
+  | O => []
+  | S f => if (n <? 2)%N then [] else (n mod 256)%N :: sd_bytes f (n / 256)%N
+  end.
+Definition sd (n : N) : str := rev (sd_bytes (N.size_nat n) n).
 
 Record ccase := {
   cc_world : world;
